@@ -70,7 +70,7 @@ def main():
         f.write("\n")
 
 
-HOOK_COMMITS = []
+HOOK_COMMITS = ["330c17b4f84287e7d10ceb5c4a7699342498ddf7"]
 NA = {}
 
 if __name__ == "__main__":
